@@ -547,17 +547,12 @@ Section G.
       assert (Sd : scoped (flat_df flat_int d)).
       { destruct d as [|dw1 da dw2 di]; cbn [flat_df wf_df] in *; [apply scoped_nil|]. destruct Hdf as (D1 & D2 & D3 & D4).
         pose proof (scoped_int tk cl di D4). sc. }
-      (* the type keyword is an integer type, hence not BOOL *)
-      assert (Ot : ok_class (cl t) = true \/ cl t = CBoolT) by (destruct (cl t); try discriminate Ht; [right; reflexivity | left; reflexivity]).
-      destruct Ot as [Ot|Ot].
-      + apply scoped_cons; [rewrite Hn; reflexivity|]. apply scoped_app; [sc|]. apply scoped_cons; [rewrite Hc; reflexivity|].
-        apply scoped_app; [sc|]. apply scoped_cons; [exact Ot|]. sc.
-      + (* BOOL (never an integer type in the instance, but the classes do not say so): followed by trivia or '(' *)
-        apply scoped_cons; [rewrite Hn; reflexivity|]. apply scoped_app; [sc|]. apply scoped_cons; [rewrite Hc; reflexivity|].
-        apply scoped_app; [sc|].
-        change (t :: w3 ++ lp :: w4 ++ flat_r r ++ w5 ++ rp :: flat_df flat_int d) with ([t] ++ (w3 ++ lp :: w4 ++ flat_r r ++ w5 ++ rp :: flat_df flat_int d)).
-        apply DeclProofs.scoped2_then; [apply DeclProofs.scoped2_boolt; exact Ot | sc | destruct w3; discriminate|].
-        destruct w3 as [|x w3]; cbn [app DeclProofs.hfh]; [rewrite Hlp; discriminate | rewrite (Forall_inv Hw3); discriminate].
+      (* the type keyword is followed by trivia or '(' , never by '#' *)
+      apply scoped_cons; [rewrite Hn; reflexivity|]. apply scoped_app; [sc|]. apply scoped_cons; [rewrite Hc; reflexivity|].
+      apply scoped_app; [sc|].
+      change (t :: w3 ++ lp :: w4 ++ flat_r r ++ w5 ++ rp :: flat_df flat_int d) with ([t] ++ (w3 ++ lp :: w4 ++ flat_r r ++ w5 ++ rp :: flat_df flat_int d)).
+      apply DeclProofs.scoped2_then; [apply DeclProofs.scoped2_type; exact Ht | sc | destruct w3; discriminate|].
+      destruct w3 as [|x w3]; cbn [app DeclProofs.hfh]; [rewrite Hlp; discriminate | rewrite (Forall_inv Hw3); discriminate].
     - intros (Hn & Hw1 & Hc & Hw2 & Hlp & Hw3 & Hvs & Hw4 & Hrp & Hdf). apply DeclProofs.scoped_2.
       pose proof (DeclProofs.scoped_ns tk cl vs Hvs).
       assert (Sd : scoped (flat_df (fun v => [v]) d)).
